@@ -169,7 +169,7 @@ class Impl:
         # one real FolderObservation (file_system_requires_scan) per folder name, created when the name is first seen; what each
         # reported at the last timestep and what it has cached
         self.observers: Dict[str, object] = {}
-        self.last_obs: Dict[str, Tuple[str, str]] = {}
+        self.last_obs: Dict[str, Tuple[str, str, str]] = {}
         self.obs_complaints: List[dict] = []
 
     def _observe(self):
@@ -184,7 +184,15 @@ class Impl:
                     where=["network", "nodes", self.host, "file_system", "folders", name], files=[], num_files=0,
                     include_num_access=False, file_system_requires_scan=True)
             rep = ob.observe(state)["health_status"]
-            self.last_obs[name] = (self.FsH(int(rep)).name, self.FsH(int(ob.cached_obs["health_status"])).name)
+            # ... and one observation WITHOUT file_system_requires_scan (reports the actual health)
+            ob2 = self.observers.get("!" + name)
+            if ob2 is None:
+                ob2 = self.observers["!" + name] = FolderObservation(
+                    where=["network", "nodes", self.host, "file_system", "folders", name], files=[], num_files=0,
+                    include_num_access=False, file_system_requires_scan=False)
+            rep2 = ob2.observe(state)["health_status"]
+            self.last_obs[name] = (self.FsH(int(rep)).name, self.FsH(int(ob.cached_obs["health_status"])).name,
+                                   self.FsH(int(rep2)).name)
             # implementation-only oracle (the statement of theorem C14_obs_faithful, on the real objects): what the agent is shown
             # for a folder is the folder's visible health of this moment (0 when there is no live folder of that name)
             live = self.node.file_system.get_folder(name)
@@ -192,9 +200,13 @@ class Impl:
             if self.last_obs[name][0] != want:
                 self.obs_complaints.append({"item": f"folder-observation:{name}", "reported": self.last_obs[name][0],
                                             "visible": want, "cached": self.last_obs[name][1]})
+            want2 = live.health_status.name if live is not None and not live.deleted else "NONE"
+            if self.last_obs[name][2] != want2:
+                self.obs_complaints.append({"item": f"folder-observation-without-scan:{name}", "reported": self.last_obs[name][2],
+                                            "visible": want2, "cached": "-"})
 
     def obs_view(self) -> str:
-        return ",".join(f"{k}={v[0]}/{v[1]}" for k, v in sorted(self.last_obs.items()))
+        return ",".join(f"{k}={v[0]}/{v[1]}/{v[2]}" for k, v in sorted(self.last_obs.items()))
 
     def _refresh(self):
         """after an operation: drop uninstalled software, append newly created software / folders / files"""
